@@ -171,7 +171,83 @@ def oracle(spec):
     return {"nt": bool(nt), "cls": cls}
 
 
+# ------------------------------------------------------------------------------ Liesel model: variable names and node names as position keys
+def gen_liesel():
+    from hypothesis import strategies as st
+
+    keys = ["c", "e", "e_value", "d_value", "sum_node", "a_value"]
+    return st.fixed_dictionaries({
+        "incl": st.lists(st.sampled_from(keys), unique=True, max_size=4), "excl": st.lists(st.sampled_from(keys + ["a", "b"]), unique=True, max_size=3),
+        "post": st.integers(2, 6), "warm": st.integers(0, 4), "thin": st.sampled_from([1, 1, 2]), "chains": st.integers(1, 3), "seed": st.integers(0, 1000),
+        "init": st.lists(st.integers(0, 20), min_size=4, max_size=4), "a_mult": st.integers(1, 4)})
+
+
+def oracle_liesel(c):
+    from vlib.lz import lsl
+
+    f32 = np.float32
+    a = lsl.Var(f32(c["init"][0]), name="a")
+    b = lsl.Var(np.array([c["init"][1], c["init"][1] + 1], dtype=f32), name="b")
+    cc = lsl.Var(f32(c["init"][2]), name="c")
+    d = lsl.Var(f32(c["init"][3]), name="d")
+    e = lsl.Var(lsl.Calc(lambda x, y: x + jnp.sum(y), a, b), name="e")                 # weak variable: e / e_value name the same quantity
+    sum_node = lsl.Calc(lambda x, y, z: x + y + z, e, cc, d, _name="sum_node")        # a plain node
+    model = lsl.GraphBuilder().add(sum_node).build_model()
+    iface = gs.LieselInterface(model)
+    post = c["post"] * c["thin"]
+    eps = [[0, 1, 1]] + ([[3, c["warm"], 1]] if c["warm"] else []) + [[4, post, c["thin"]]]
+    bld = gs.EngineBuilder(seed=c["seed"], num_chains=c["chains"])
+    bld.show_progress = False
+    bld.set_epochs([EpochConfig(EpochType(t), dd, k, None) for t, dd, k in eps])
+    bld.set_model(iface)
+    bld.set_initial_values(model.state)
+    m = c["a_mult"]
+    bld.add_kernel(gs.GibbsKernel(["a"], lambda key, st: {"a": jnp.mod(m * iface.extract_position(["a"], st)["a"] + 1.0, 97.0)}))
+    bld.add_kernel(gs.GibbsKernel(["b"], lambda key, st: {"b": jnp.mod(iface.extract_position(["b"], st)["b"] + iface.extract_position(["a"], st)["a"], 97.0)}))
+    bld.positions_included = list(c["incl"])
+    bld.positions_excluded = list(c["excl"])
+    tracked = [k for k in ["a", "b"] + list(c["incl"]) if k not in c["excl"]]
+    det = f"{c} tracked={tracked}"
+    if not tracked:
+        return {"nt": False, "cls": ["empty-selection"]}       # outside the input domain
+    eng = bld.build()
+    eng.sample_all_epochs()
+    res = eng.get_results()
+    pos = res.get_samples()
+    require(sorted(pos.keys()) == sorted(set(tracked)), "liesel:tracked-keys", f"stored {sorted(pos.keys())}; {det}")
+    # reference trajectory
+    av, bv = float(c["init"][0]), np.array([c["init"][1], c["init"][1] + 1], dtype=np.float64)
+    cv, dv = float(c["init"][2]), float(c["init"][3])
+    traj = []
+
+    def snap():
+        ev = av + bv.sum()
+        return {"a": av, "a_value": av, "b": bv.copy(), "c": cv, "d_value": dv, "e": ev, "e_value": ev, "sum_node": ev + cv + dv}
+
+    traj.append(snap())
+    kept = [0]
+    t = 0
+    for typ, dur, thin in eps[1:]:
+        for j in range(dur):
+            av = (m * av + 1.0) % 97.0
+            bv = (bv + av) % 97.0
+            t += 1
+            traj.append(snap())
+            if (j + 1) % thin == 0:
+                kept.append(t)
+    for k in tracked:
+        got = np.asarray(pos[k], dtype=np.float64)
+        exp = np.stack([np.asarray(traj[i][k], dtype=np.float64) for i in kept])
+        for ch in range(c["chains"]):
+            require(got[ch].shape == exp.shape and np.array_equal(got[ch], exp), "liesel:stored-value",
+                    lambda: f"key {k} chain {ch}: {got[ch].tolist()} expected {exp.tolist()}; {det}")
+    derived = [k for k in tracked if k in ("e", "e_value", "sum_node")]
+    return {"nt": bool(derived and c["excl"]), "cls": ["derived" if derived else "noderived", "excl" if c["excl"] else "noexcl", "thin" if c["thin"] > 1 else "nothin"]}
+
+
 SUBS = [
     Sub("chains", oracle, gen=gen, n={"quick": 96, "thorough": 2400}, shrink_calls=40,
         what="stored positions / infos / kernel states / posterior accessors vs reference; all chunk sizes; builder include/exclude"),
+    Sub("liesel_keys", oracle_liesel, gen=gen_liesel, n={"quick": 24, "thorough": 600}, shrink_calls=20,
+        what="Liesel model behind the builder: variable names, value-node names and plain node names as included / excluded position keys"),
 ]
